@@ -257,8 +257,36 @@ func (e *env) runSeq(id, tier string, nops int) {
 			}
 		}
 	}
+	// once per invocation on a file-system backend: a key of a realistic URL length beyond PATH_MAX when
+	// spread over fragment directories (3 KB), then the listing
+	if e.backend != "mem" && !longKeyDone {
+		longKeyDone = true
+		if kl, ok := e.conn.(keyLister); ok {
+			long := "http://example.com/search?q=" + strings.Repeat("x", 3100)
+			e.emit("S\tNOTE\tlongkey")
+			for _, step := range []string{"set", "keys", "del", "keys"} {
+				switch step {
+				case "set":
+					v := []byte("value of the long key")
+					e.emit("S\tSET\t%s\t%s\t%s", hx(long), valRepr(v), cls(e.conn.Set(long, v)))
+				case "del":
+					e.emit("S\tDEL\t%s\t%s", hx(long), cls(e.conn.Delete(long)))
+				case "keys":
+					ks, err := kl.Keys("")
+					sort.Strings(ks)
+					hs := make([]string, len(ks))
+					for j, k := range ks {
+						hs[j] = hx(k)
+					}
+					e.emit("S\tKEYS\t%s\t%s\t%s", hx(""), cls(err), strings.Join(hs, ","))
+				}
+			}
+		}
+	}
 	e.emit("E\t%s", id)
 }
+
+var longKeyDone bool
 
 /* ------------------------------- expapi ------------------------------- */
 
@@ -281,9 +309,15 @@ func (e *env) runExpapi(id string) {
 	}
 	q := "?dsn=" + url.QueryEscape(dsn)
 	var used []string
-	for i := 0; i < 12; i++ {
+	for i := 0; i < 14; i++ {
 		k := e.genKey()
-		if k == "" || strings.Contains(k, "/") || k == "." || k == ".." {
+		// the two keys no request form reaches ("" and "/"), once each per run on the file-system backends
+		if i == 12 {
+			k = ""
+		} else if i == 13 {
+			k = "/"
+		}
+		if (i >= 12 && e.backend == "mem") || k == "." || k == ".." || (i < 12 && (k == "" || k == "/")) {
 			continue
 		}
 		used = append(used, k)
